@@ -753,7 +753,8 @@ def split_panels(seg, row, width):
     half = width // 2
     col, left, right, exact = 0, [], [], False
     for g, w in cl:
-        if col < half:
+        if col < half or (w == 0 and not right):
+            # (zero-width clusters at the boundary end the left panel)
             left.append(g)
         else:
             if col == half and not right:
@@ -1009,8 +1010,10 @@ def oracle_binary(ctx, rep, seg, case, rc, err, rows):
                     return
                 # what precedes the mark is a prefix of the line; the cut may have replaced the
                 # first half of a wide character by a blank
+                vis = lambda t: "".join(g for g, w in seg.one(t) if w > 0)
+                got, wantv = vis(got), vis(want)
                 g2 = got.rstrip(" ")
-                ok = want.startswith(got) or want.startswith(g2) or (got.endswith(" ") and want.startswith(got[:-1]))
+                ok = wantv.startswith(got) or wantv.startswith(g2) or (got.endswith(" ") and wantv.startswith(got[:-1]))
             else:
                 j = joined.rstrip(" ")
                 ok = j == want.rstrip(" ") or (want.startswith(j) and seg.width(want[len(j):].rstrip(" ")) == 0)
